@@ -30,7 +30,7 @@ CHECKS = {
    note="the caller protocol is re-enacted by the harness on the bare queue (not through Database handles); the WAL write is a harness-side log; the 30 s timeout is outside the model"),
  "C04": dict(cat="model_checking", ref="DESIGN.md 3.9, 6 (C04)",
    tech="TLA+ reference spec Relational.tla explored by TLC (per-transition emission, VIEW hides history; -simulate random walks); every behaviour rendered to SQL and replayed on TurDB, results and full observation compared with the model",
-   text="Reopen and Checkpoint are stuttering actions of Relational.tla interleaved anywhere in the DML histories TLC explores (depth 3 quick / 4 thorough, plus action-weighted random walks of 12-20 steps in which reopen, checkpoint and DELETE-all motifs are frequent); after each, the full observation (scan, COUNT(*), primary-key, unique and range lookups) must equal the model's and later statements must behave as the model says; run with the WAL off and on",
+   text="Reopen and Checkpoint are stuttering actions of Relational.tla interleaved anywhere in the DML histories TLC explores (depth 3 quick / 4 thorough, plus action-weighted random walks of 12-20 steps in which reopen, checkpoint and DELETE-all motifs are frequent); after each, the full observation (scan, COUNT(*), primary-key, unique and range lookups) must equal the model's and later statements must behave as the model says; run with the WAL off and on, the checkpoint issued as the API call, as PRAGMA wal_checkpoint, and automatically (threshold 1)",
    note="bounded domain (3 ids, a in {NULL,1,2}, b in {NULL,0,1,5}); quick replays a stratified seeded sample of the explored transitions plus random walks, thorough replays depth-4 transitions; renderer/normaliser in lib/relational.py trusted; open findings listed in known_findings.json by spec-defined signature"),
  "C05": dict(cat="model_checking", ref="DESIGN.md 3.9, 6 (C05)",
    tech="TLA+ reference spec Relational.tla explored by TLC (per-transition emission, VIEW hides history; -simulate random walks); every behaviour rendered to SQL and replayed on TurDB, results and full observation compared with the model",
